@@ -29,7 +29,7 @@ FLOORS = {"quick": dict(_TYPE_FLOORS, **{"zerocoded": 300, "plain": 300, "acks":
                                           "block_kind_1": 30, "block_kind_2": 300, "var2_len>255": 20, "fill_cases": 1500,
                                           "varblock_count_0": 100, "trailing_blocks_omitted": 50, "unset:MVT_FIXED": 10,
                                           "unset:MVT_VARIABLE": 100, "var_str": 100, "neg_zero": 20}),
-          "thorough": dict(_TYPE_FLOORS, **{"templates_seen": 481, "unset:MVT_FIXED": 100})}
+          "thorough": dict(_TYPE_FLOORS, **{"templates_seen": 481, "unset:MVT_FIXED": 40})}
 MANIFEST = {
     "text": "Generated search over the message template: each case is encoded, compared byte-for-byte with an independent "
             "reference encoder (so a consistent error in both codec directions is still seen), decoded with deferred "
